@@ -2,6 +2,7 @@
 import os
 
 import serve_common as sc
+import x06en
 import x06rl
 
 
@@ -25,3 +26,8 @@ def run(ctx, replay):
     if os.path.exists(ov):
         os.remove(ov)
     x06rl.run_tier(ctx)
+    # a fourth and fifth entry: the running UDP and TCP listeners (batched reader: inline pass + replay; portable reader:
+    # ServeRaw on the worker; one slab each, so a packet meets what the previous one left) against the decoded entry
+    # (ServeEngine.tla); the tier's C06 class (reply contract on the bytes) is drift here
+    x06en.ONLY = "C05"
+    x06en.run_tier(ctx)
